@@ -127,7 +127,7 @@ Definition put_request (md5 : list N -> list N) (c : config) (integrity : bool) 
                   match read_all_declared md5 expected r size with
                   | inl e => (s1, inl e)
                   | inr body =>
-                      match put_object s1 b k body tracked with
+                      match put_object s1 b k body (carry_meta s1 b k tracked) with
                       | (s2, (None, vid)) => (s2, inr (body, vid))
                       | (s2, (Some _, _)) => (s2, inl PNoSuchBucket)
                       end
